@@ -134,3 +134,45 @@ emit(r(0));`
 	got, ok := run(src, map[string]int{"n": n})
 	same(got, ok, []int{n + 1, n + 2}, "static-recursion")
 }
+
+// H_switch_labels: a switch with three cases whose labels are drawn from {1,2,3} WITH repetition
+// (duplicate labels are legal: later duplicates are dead code), optional default in any position,
+// labels written as literals or as expressions, subject symbolic: the FIRST case in source order
+// whose label equals the subject runs, the default runs only when none matches.
+func H_switch_labels() {
+	x := symx.IntRange("x", 0, 4)
+	l0, l1, l2 := 1+symx.Choose("l0", 3), 1+symx.Choose("l1", 3), 1+symx.Choose("l2", 3)
+	def := symx.Choose("default_at", 5) // position of the default clause (4 = none)
+	form := symx.Choose("label_form", 2) // 0 literals, 1 one label written as an expression
+	lab := func(v int, i int) string {
+		if form == 1 && i == 1 {
+			return "(" + string(rune('0'+v)) + " + 0)"
+		}
+		return string(rune('0' + v))
+	}
+	labels := []int{l0, l1, l2}
+	src := "switch ($a) {\n"
+	for i := 0; i <= 3; i++ {
+		if def == i {
+			src += "  default: emit(90); break;\n"
+		}
+		if i < 3 {
+			src += "  case " + lab(labels[i], i) + ": emit(1" + string(rune('0'+i)) + "); break;\n"
+		}
+	}
+	src += "}\nemit(999);"
+	got, ok := run(src, map[string]int{"a": x})
+	var want []int
+	hit := false
+	for i := 0; i < 3 && !hit; i++ {
+		if labels[i] == x {
+			want = append(want, 10+i)
+			hit = true
+		}
+	}
+	if !hit && def < 4 {
+		want = append(want, 90)
+	}
+	want = append(want, 999)
+	same(got, ok, want, "switch-labels")
+}
